@@ -28,6 +28,7 @@ func GenerateX86(ocodes []ocode.Ocode, ctx *CodeGenContext) []byte {
 		if err != nil {
 			log.Printf("error: Failed to process ocode: %v", err)
 		}
+		verifOcode(oc, ctx, len(machineCode), code, err)
 		machineCode = append(machineCode, code...)
 	}
 	log.Printf("debug: [codegen] === ocode processing end ===\n")
